@@ -294,6 +294,7 @@ func runC03(c *Ctx) {
 	c.Rule("C03.5", "narrowing to uint32 for a response envelope length is dominated by a limit check of the same quantity", 4)
 	c.Rule("C03.6", "a re-encoded response frame's compressed flag = message was compressed AND client compression present", 1)
 	checkEnvelopeSites(c, "C03.3", "C03.5", "C03.6", false)
+	checkSynthFlagNonEmpty(c, "C03.6", false)
 
 	// ---------------------------------------------------------------- C03.4
 	c.Rule("C03.4", "Content-Length equals the buffer written, only without error; backend Content-Length consumed first", 4)
@@ -387,6 +388,8 @@ func runC03more(c *Ctx) {
 	runC03EndNotOverridden(c)
 	// ---------------------------------------------------------------- C03.15
 	runC03EndAlwaysEmitted(c)
+	runC03WebTrailerNames(c)
+	runC03EarlyEndScrubs(c)
 	// ---------------------------------------------------------------- C03.12
 	c.Rule("C03.12", "an enveloped unit is decompressed exactly when its own envelope's compressed flag says so", 2)
 	checkUnitFlagDecompress(c, "C03.12")
@@ -549,6 +552,7 @@ func runC03more(c *Ctx) {
 	// ---------------------------------------------------------------- C03.10
 	c.Rule("C03.10", "each client protocol's response carries its own wire format's Content-Type prefix", 5)
 	checkContentTypeTables(c, "C03.10", "clientProtocolHandler", "addProtocolResponseHeaders", "responseMeta")
+	checkMessageContentType(c, "C03.10", "clientBodyPreparer", "prepareMarshalledResponse")
 
 	// ---------------------------------------------------------------- C03.8
 	c.Rule("C03.8", "end-in-headers client protocols announce a content compression only when the body is the (possibly compressed) message, never on an error body", 2)
@@ -997,5 +1001,177 @@ func runC03EndAlwaysEmitted(c *Ctx) {
 		c.Check(!found, "C03.15", typeName(t), "end-emitted", fn.Pos(),
 			"every path (on which the end is not already in the headers) writes the end to the writer or returns trailers",
 			"the end encoder has a path that writes nothing and returns no trailers ("+witnessString(p, path)+"): the response stops without a terminal disposition (e.g. when the encoded end exceeds a limit)")
+	}
+}
+
+// runC03WebTrailerNames: C03.16 (defect D45).  The gRPC-Web end of stream is an HTTP/1-style
+// header block inside a frame; PROTOCOL-WEB.md requires lower-case names there and the official
+// client reads "grpc-status" case-sensitively.  http.Header.Write emits the map's keys verbatim,
+// so the map that is serialised must have been filled with keys that went through
+// strings.ToLower - not through Set/Add (which canonicalise) and not by a helper.
+func runC03WebTrailerNames(c *Ctx) {
+	p := c.P
+	c.Rule("C03.16", "the gRPC-Web end-of-stream frame is serialised from a map whose keys were lower-cased", 1)
+	cph := p.Iface("clientProtocolHandler")
+	n := 0
+	for _, t := range p.Implementers(cph) {
+		if protocolConstOf(p, t) != "ProtocolGRPCWeb" {
+			continue
+		}
+		enc := p.MethodOf(t, "encodeEnd")
+		if enc == nil {
+			fatalf("anchor=%s.encodeEnd not found", typeName(t))
+		}
+		for _, fn := range SortedFuncs(p.Reach(enc)) {
+			if !p.inScope(fn) {
+				continue
+			}
+			for _, call := range Calls(fn) {
+				if !IsCallTo(call, "(net/http.Header).Write", "(net/http.Header).WriteSubset") {
+					continue
+				}
+				n++
+				why := lowerKeyedMap(p, call.Common().Args[0], call, 0)
+				c.Check(why == "", "C03.16", FuncName(fn), "trailer-frame-names-lower-case", call.Pos(),
+					"every key of the serialised header block went through strings.ToLower",
+					"the gRPC-Web trailer frame is serialised with names that are not lower-cased: "+why+"; the official gRPC-Web client looks up 'grpc-status' case-sensitively and does not see the outcome")
+			}
+		}
+	}
+	if n == 0 {
+		c.Bad("C03.16", "grpcWebClientProtocol", "trailer-frame-names-lower-case", token.NoPos, "no http.Header.Write found under the gRPC-Web end encoder: shape changed")
+	}
+}
+
+// lowerKeyedMap explains why the header map v is not known to hold only lower-cased keys
+// ("" = it is): v is created here (or by a module helper, one level) and every key stored
+// went through strings.ToLower.
+func lowerKeyedMap(p *Prog, v ssa.Value, user ssa.Instruction, depth int) string {
+	m := strip(v)
+	if call, ok := m.(*ssa.Call); ok && depth < 2 {
+		if sc := call.Call.StaticCallee(); sc != nil && p.inModule(sc) {
+			n := 0
+			for _, b := range sc.Blocks {
+				if ret, ok := b.Instrs[len(b.Instrs)-1].(*ssa.Return); ok && len(ret.Results) > 0 {
+					n++
+					if why := lowerKeyedMap(p, ret.Results[0], ret, depth+1); why != "" {
+						return "built by " + FuncName(sc) + ": " + why
+					}
+				}
+			}
+			if n > 0 {
+				return ""
+			}
+		}
+	}
+	if _, fresh := m.(*ssa.MakeMap); !fresh {
+		return "the serialised map is not created in this function (its keys cannot be vouched for)"
+	}
+	nStores := 0
+	for _, ref := range *m.Referrers() {
+		switch r := ref.(type) {
+		case *ssa.MapUpdate:
+			nStores++
+			lowered := false
+			for _, l := range Origins(r.Key) {
+				if l.Kind == "call" && IsCallTo(l.Call, "strings.ToLower") {
+					lowered = true
+				} else {
+					lowered = false
+					break
+				}
+			}
+			if !lowered {
+				return "a key is stored without passing through strings.ToLower (" + p.Pos(r.Pos()) + ")"
+			}
+		case *ssa.Lookup, *ssa.DebugRef, *ssa.Return:
+		case ssa.CallInstruction:
+			if ssa.Instruction(r) == user || IsCallTo(r, "builtin len") {
+				continue
+			}
+			return "the map is handed to " + CalleeName(r) + " (" + p.Pos(r.Pos()) + "), which may store canonical-case keys"
+		case *ssa.ChangeType, *ssa.MakeInterface:
+			return "the map escapes through a conversion (" + p.Pos(instrPos(ref)) + ")"
+		}
+	}
+	if nStores == 0 {
+		return "nothing is stored into the serialised map here"
+	}
+	return ""
+}
+
+// runC03EarlyEndScrubs: C03.17 (defect D46).  The backend's framing headers (Content-Length,
+// Content-Encoding, Trailer) are taken off the response by WriteHeader when it processes the
+// backend's headers.  An end reported BEFORE that (respMeta is still nil: the error arose while
+// the backend was reading the request, or while its headers were being parsed) is written with
+// whatever the handler has put into the header map so far - so on every path from the
+// 'respMeta == nil' edge to the flush of the client's headers each of the three is deleted.
+func runC03EarlyEndScrubs(c *Ctx) {
+	p := c.P
+	c.Rule("C03.17", "an end reported before the backend's headers were processed removes the backend's framing headers before flushing", 3)
+	rwPT := types.NewPointer(p.MustNamed("responseWriter"))
+	flush := p.MethodOf(rwPT, "flushHeaders")
+	respMetaF := p.MustField("responseWriter", "respMeta")
+	if flush == nil {
+		fatalf("anchor=responseWriter.flushHeaders not found")
+	}
+	n := 0
+	for _, e := range p.Callers(flush) {
+		if e.Kind != "static" || !p.inScope(e.Caller) {
+			continue
+		}
+		early := false
+		for _, f := range FactsAt(e.Site.Block()) {
+			cmp, ok := f.AsCmp()
+			if !ok || LoadedField(cmp.X) != respMetaF || !IsNilConst(cmp.Y) {
+				continue
+			}
+			if cmp.Op == token.EQL {
+				early = true
+			}
+		}
+		// switch { case w.headersFlushed: ... case w.respMeta != nil: ... default: } gives the fact
+		// as the false edge of '!= nil', which AsCmp normalises to EQL
+		if !early {
+			continue
+		}
+		for _, key := range []string{"Content-Length", "Content-Encoding", "Trailer"} {
+			n++
+			var isDel func(in ssa.Instruction) bool
+			isDel = func(in ssa.Instruction) bool {
+				ci, ok := in.(ssa.CallInstruction)
+				if !ok {
+					return false
+				}
+				if IsCallTo(ci, "(net/http.Header).Del") {
+					k, isK := ConstString(ci.Common().Args[1])
+					return isK && textproto.CanonicalMIMEHeaderKey(k) == key
+				}
+				// a module helper every path of which deletes the key
+				if sc := ci.Common().StaticCallee(); sc != nil && p.inModule(sc) && sc != flush && sc != e.Caller {
+					if esc, _ := (PathQuery{Target: IsExit, Avoid: isDel}).Search(sc, nil); !esc {
+						return true
+					}
+				}
+				return false
+			}
+			found, path := PathQuery{Target: func(in ssa.Instruction) bool { return in == ssa.Instruction(e.Site) }, Avoid: isDel}.Search(e.Caller, nil)
+			if found {
+				// or the flush itself deletes it before it hands the headers to the client's writer
+				isWH := func(in ssa.Instruction) bool {
+					ci, ok := in.(ssa.CallInstruction)
+					return ok && ci.Common().IsInvoke() && N(ci.Common().Method) == "WriteHeader"
+				}
+				if esc, _ := (PathQuery{Target: isWH, Avoid: isDel}).Search(flush, nil); !esc {
+					found = false
+				}
+			}
+			c.Check(!found, "C03.17", FuncName(e.Caller), "early-end-removes:"+key, e.Site.Pos(),
+				"every path to this flush deletes the backend's "+key+" first",
+				"an end reported before the backend's headers were processed is flushed with the backend's "+key+" still in the header map (a handler may set it before it reads the request): the client's error response is framed by a header that describes another body: "+witnessString(p, path))
+		}
+	}
+	if n == 0 {
+		c.Bad("C03.17", "responseWriter", "early-end-removes", token.NoPos, "no flush of the client's headers under 'backend headers not processed yet' found: shape changed")
 	}
 }
